@@ -875,6 +875,698 @@ theorem numbering_consecutive :
   have ⟨h1, _, h3⟩ := ents_numbering _ _ s c4 es c5 hes
   exact ⟨h1, h3⟩
 
+
+
+/-! ## fuel is sufficient and nothing panics (table side) -/
+
+theorem parseAllowed_cursor (p : UInt8 → Bool) (s : Bytes) (i : Nat) :
+    i ≤ (parseAllowed p s i).2 ∧ (i ≤ s.length → (parseAllowed p s i).2 ≤ s.length) := by
+  simp only [parseAllowed]
+  have h : ((s.drop i).takeWhile p).length ≤ (s.drop i).length := (List.takeWhile_prefix p).length_le
+  simp only [List.length_drop] at h
+  exact ⟨by omega, fun _ => by omega⟩
+
+theorem getElem?_some_lt {s : Bytes} {i : Nat} {b : UInt8} (h : s[i]? = some b) : i < s.length := by
+  rcases Nat.lt_or_ge i s.length with h1 | h1
+  · exact h1
+  · simp [List.getElem?_eq_none h1] at h
+
+/-- `Comment.parse` at a `%` succeeds and consumes at least that byte -/
+theorem comment_at (s : Bytes) (i : Nat) (h : s[i]? = some 37) :
+    ∃ k, comment s i = (.ok (), k) ∧ i + 1 ≤ k ∧ k ≤ s.length := by
+  have hi := getElem?_some_lt h
+  have ⟨h1, h2⟩ := parseAllowed_cursor notLf s (i + 1)
+  unfold comment
+  simp only [h, bne_self_eq_false, Bool.false_eq_true, if_false]
+  by_cases hl : (s[(parseAllowed notLf s (i + 1)).2]? == some 10) = true
+  · simp only [hl, if_true]
+    have := getElem?_some_lt (by simpa using hl)
+    exact ⟨_, rfl, by omega, by omega⟩
+  · simp only [hl, if_false]
+    exact ⟨_, rfl, by omega, h2 (by omega)⟩
+
+/-- `wsEol_fuel_sufficient`: with more fuel than remaining bytes the `WhitespaceEOL` loop
+    finishes (every further round passes a comment of at least one byte); it cannot fail -/
+theorem wsEolLoop_fuel_sufficient : ∀ (f : Nat) (s : Bytes) (i : Nat) (b : Bool), s.length - i < f →
+    ∃ b' k, wsEolLoop f s i b = (.ok b', k) ∧ i ≤ k ∧ (i ≤ s.length → k ≤ s.length) := by
+  intro f
+  induction f with
+  | zero => intro s i b h; omega
+  | succ f ih =>
+    intro s i b h
+    have ⟨h1, h2⟩ := parseAllowed_cursor isWsEol s i
+    simp only [wsEolLoop]
+    by_cases h37 : (s[(parseAllowed isWsEol s i).2]? == some 37) = true
+    · simp only [h37, if_true]
+      have hj := getElem?_some_lt (by simpa using h37)
+      obtain ⟨k, hk, hk1, hk2⟩ := comment_at s _ (by simpa using h37)
+      simp only [hk]
+      obtain ⟨b', k', hl, hl1, hl2⟩ := ih s k false (by omega)
+      exact ⟨b', k', hl, by omega, fun _ => hl2 hk2⟩
+    · simp only [h37, if_false]
+      exact ⟨_, _, rfl, h1, h2⟩
+
+theorem wsEol_total (e : Bool) (s : Bytes) (i : Nat) :
+    (∃ k, wsEol e s i = (.ok (), k) ∧ i ≤ k ∧ (i ≤ s.length → k ≤ s.length)) ∨
+    (∃ k, wsEol e s i = (.err .guard, k)) := by
+  obtain ⟨b', k, hl, h1, h2⟩ := wsEolLoop_fuel_sufficient (s.length - i + 1) s i true (by omega)
+  unfold wsEol
+  simp only [hl]
+  split
+  · exact Or.inr ⟨k, rfl⟩
+  · exact Or.inl ⟨k, rfl, h1, h2⟩
+
+theorem wsNoEol_total (e : Bool) (s : Bytes) (i : Nat) :
+    (∃ k, wsNoEol e s i = (.ok (), k) ∧ i ≤ k ∧ (i ≤ s.length → k ≤ s.length)) ∨
+    (∃ k, wsNoEol e s i = (.err .guard, k)) := by
+  have ⟨h1, h2⟩ := parseAllowed_cursor isWsNoEol s i
+  unfold wsNoEol
+  generalize hpa : parseAllowed isWsNoEol s i = pa at *
+  obtain ⟨ws, j⟩ := pa
+  have hj : j = i + ws.length := by
+    have := congrArg Prod.snd hpa; have h2 := congrArg Prod.fst hpa
+    simp only [parseAllowed] at this h2
+    rw [← this, ← h2]
+  simp only at h1 h2 ⊢
+  split
+  · exact Or.inr ⟨j, rfl⟩
+  · split
+    · rename_i hc
+      simp only [Bool.and_eq_true, beq_iff_eq] at hc
+      have hne : ws ≠ [] := by intro h0; rw [h0] at hc; simp at hc
+      have hpos : 0 < ws.length := List.length_pos_iff.mpr hne
+      have hj0 : (j == 0) = false := by
+        have : j ≠ 0 := by omega
+        simpa using this
+      simp only [hj0, Bool.false_eq_true, if_false]
+      exact Or.inl ⟨j - 1, rfl, by omega, fun h => by have := h2 h; omega⟩
+    · exact Or.inl ⟨j, rfl, h1, h2⟩
+
+theorem accDigits_bound : ∀ (ds : Bytes) (n m : Nat), accDigits ds n = some m → n ≤ i64Max → m ≤ i64Max
+  | [], n, m, h, hn => by simp [accDigits] at h; omega
+  | c :: t, n, m, h, _ => by
+    simp only [accDigits] at h
+    split at h
+    · simp at h
+    · split at h
+      · simp at h
+      · exact accDigits_bound t _ m h (by omega)
+
+/-- `IntegerP` never panics; an accepted value is an `i64` and the cursor does not move back -/
+theorem integerP_total (s : Bytes) (i : Nat) :
+    (∃ v j, integerP s i = (.ok ⟨v, i, j⟩, j) ∧ -(i64Max : Int) ≤ v ∧ v ≤ (i64Max : Int) ∧ i ≤ j
+      ∧ (i ≤ s.length → j ≤ s.length)) ∨
+    integerP s i = (.err .guard, i) := by
+  unfold integerP
+  generalize hsg : (if (s[i]? == some 45) = true then (true, i + 1)
+    else if (s[i]? == some 43) = true then (false, i + 1) else (false, i)) = sgn
+  have hs2 : i ≤ sgn.2 ∧ (i ≤ s.length → sgn.2 ≤ s.length) := by
+    rw [← hsg]
+    split
+    · rename_i h
+      have := getElem?_some_lt (by simpa using h)
+      exact ⟨by simp, fun _ => by simp; omega⟩
+    · split
+      · rename_i h
+        have := getElem?_some_lt (by simpa using h)
+        exact ⟨by simp, fun _ => by simp; omega⟩
+      · exact ⟨by simp, fun h => by simpa using h⟩
+  have ⟨h1, h2⟩ := parseAllowed_cursor isDigit s sgn.2
+  dsimp only
+  cases hpa : parseAllowed isDigit s sgn.2 with
+  | mk ds j =>
+  rw [hpa] at h1 h2
+  simp only at h1 h2 ⊢
+  split
+  · exact Or.inr rfl
+  · cases hacc : accDigits ds 0 with
+    | none => exact Or.inr rfl
+    | some n =>
+      have hb := accDigits_bound ds 0 n hacc (by simp [i64Max])
+      refine Or.inl ⟨_, j, rfl, ?_, ?_, by omega, fun h => h2 (hs2.2 h)⟩
+      · split <;> omega
+      · split <;> omega
+
+theorem entsLoop_total : ∀ (n obj : Nat) (s : Bytes) (c : Nat), obj + n ≤ usizeLim →
+    (∃ l, entsLoop n obj s c = (.ok l, c + 20 * n)) ∨ (∃ k c', entsLoop n obj s c = (.err k, c')) := by
+  intro n
+  induction n with
+  | zero => intro obj s c _; exact Or.inl ⟨[], by simp [entsLoop]⟩
+  | succ n ih =>
+    intro obj s c hlim
+    have hlt : ¬ obj ≥ usizeLim := by omega
+    simp only [entsLoop, hlt, if_false]
+    have hspec := entry_spec obj s c
+    cases hx : entryAt s c with
+    | none =>
+      rw [hx] at hspec
+      obtain ⟨k, c', hk⟩ := hspec
+      exact Or.inr ⟨k, c', by rw [hk]⟩
+    | some x =>
+      rw [hx] at hspec
+      simp only at hspec
+      rcases ih (obj + 1) s (c + 20) (by omega) with ⟨l, hl⟩ | ⟨k, c', hk⟩
+      · refine Or.inl ⟨(⟨mkEnt obj x, c, c + 20⟩ : Located Ent) :: l, ?_⟩
+        simp only [hspec, hl, Prod.mk.injEq, true_and]; omega
+      · exact Or.inr ⟨k, c', by simp only [hspec, hk]⟩
+
+theorem exact_byte_total (b : UInt8) (s : Bytes) (c : Nat) :
+    (exact [b] s c = (.ok (), c + 1) ∧ c < s.length) ∨ exact [b] s c = (.err .guard, c) := by
+  rw [exact_byte]
+  by_cases h : s[c]? = some b
+  · exact Or.inl ⟨by simp [h], getElem?_some_lt h⟩
+  · exact Or.inr (by simp [h])
+
+/-- `XrefSubSectP` never panics; when it accepts it has consumed at least one byte that was there -/
+theorem xrefSubSectP_total (s : Bytes) (c : Nat) :
+    (∃ ss c', xrefSubSectP s c = (.ok ss, c') ∧ c + 1 ≤ c' ∧ c < s.length) ∨
+    (∃ k c', xrefSubSectP s c = (.err k, c')) := by
+  unfold xrefSubSectP
+  rcases wsNoEol_total true s c with ⟨c0, h0, h0a, _⟩ | ⟨k, hk⟩
+  rotate_left
+  · exact Or.inr ⟨_, k, by rw [hk]; rfl⟩
+  rw [h0]; simp only [andThen_ok]
+  rcases integerP_total s c0 with ⟨xs, c1, h1, hx1, hx2, h1a, _⟩ | hk
+  rotate_left
+  · exact Or.inr ⟨_, c0, by rw [hk]; rfl⟩
+  rw [h1]; simp only [andThen_ok]
+  split
+  · exact Or.inr ⟨_, _, rfl⟩
+  rename_i hxs
+  rcases exact_byte_total 32 s c1 with ⟨h2, h2a⟩ | hk
+  rotate_left
+  · exact Or.inr ⟨_, c1, by rw [hk]; rfl⟩
+  rw [h2]; simp only [andThen_ok]
+  rcases integerP_total s (c1 + 1) with ⟨xc, c3, h3, hc1, hc2, h3a, _⟩ | hk
+  rotate_left
+  · exact Or.inr ⟨_, c1 + 1, by rw [hk]; rfl⟩
+  rw [h3]; simp only [andThen_ok]
+  split
+  · exact Or.inr ⟨_, _, rfl⟩
+  rename_i hxc
+  rcases wsEol_total false s c3 with ⟨c4, h4, h4a, _⟩ | ⟨k, hk⟩
+  rotate_left
+  · exact Or.inr ⟨_, k, by rw [hk]; rfl⟩
+  rw [h4]; simp only [andThen_ok]
+  have hlim : xs.toNat + xc.toNat ≤ usizeLim := by
+    have : usizeLim = 2 ^ 64 := rfl
+    have : i64Max = 2 ^ 63 - 1 := rfl
+    omega
+  rcases entsLoop_total xc.toNat xs.toNat s c4 hlim with ⟨l, hl⟩ | ⟨k, c', hk⟩
+  · rw [hl]
+    exact Or.inl ⟨_, _, rfl, by omega, by omega⟩
+  · exact Or.inr ⟨k, c', by rw [hk]; rfl⟩
+
+/-- `sectLoop_fuel_sufficient`: with more fuel than remaining bytes the section loop never runs out
+    (every accepted subsection consumes at least one byte) and nothing in it panics -/
+theorem sectLoop_fuel_sufficient : ∀ (f : Nat) (s : Bytes) (c : Nat) (first : Bool), s.length - c < f →
+    ∀ p c', sectLoop f s c first ≠ (.panic p, c') := by
+  intro f
+  induction f with
+  | zero => intro s c first h; omega
+  | succ f ih =>
+    intro s c first h p c'
+    simp only [sectLoop]
+    have hmore : ∀ (m : Step Bool), m = (if first = true then ((.ok true, c) : Step Bool)
+        else andThen (wsNoEol true s c) fun _ c1 =>
+          if startsHeader s[c1]? = true then (.ok true, c) else (.ok false, c1)) →
+        (m = (.ok true, c)) ∨ (∃ c1, m = (.ok false, c1)) ∨ (∃ k c1, m = (.err k, c1)) := by
+      intro m hm
+      cases first with
+      | true => left; simpa using hm
+      | false =>
+        simp only [Bool.false_eq_true, if_false] at hm
+        rcases wsNoEol_total true s c with ⟨c0, h0, _, _⟩ | ⟨k, hk⟩
+        · rw [h0] at hm; simp only [andThen_ok] at hm
+          split at hm
+          · left; exact hm
+          · right; left; exact ⟨c0, hm⟩
+        · rw [hk] at hm; right; right; exact ⟨_, k, hm⟩
+    rcases hmore _ rfl with hm | ⟨c1, hm⟩ | ⟨k, c1, hm⟩
+    · rw [hm]
+      simp only
+      rcases xrefSubSectP_total s c with ⟨ss, c2, hss, hc2, hcs⟩ | ⟨k, c2, hk⟩
+      · rw [hss]; simp only
+        have := ih s c2 false (by omega)
+        cases hl : sectLoop f s c2 false with
+        | mk r c3 =>
+          cases r with
+          | ok l => simp
+          | err k => simp
+          | panic q => exact absurd hl (this q c3)
+      · rw [hk]; simp
+    · rw [hm]; simp
+    · rw [hm]; simp
+
+/-- C13 (robustness of the table parser): `XrefSectP` never panics, on any input at any cursor -
+    the fuel of the two modelled loops suffices, `decr_cursor_unsafe`, `flg[0]` and the debug-build
+    `xstart + idx` are unreachable. -/
+theorem table_never_panics (s : Bytes) (i : Nat) (p : String) (c : Nat) :
+    xrefSectP s i ≠ (.panic p, c) := by
+  unfold xrefSectP
+  rcases wsEol_total true s i with ⟨c0, h0, _, _⟩ | ⟨k, hk⟩
+  rotate_left
+  · rw [hk]; simp [andThen]
+  rw [h0]; simp only [andThen_ok]
+  intro h
+  rcases andThen_eq_panic h with h | ⟨_, c1, _, h⟩
+  · exact exact_ne_panic _ _ _ _ _ h
+  rcases wsEol_total false s c1 with ⟨c2, h2, _, _⟩ | ⟨k, hk⟩
+  rotate_left
+  · rw [hk] at h; simp [andThen] at h
+  rw [h2] at h; simp only [andThen_ok] at h
+  rcases andThen_eq_panic h with h | ⟨_, _, _, h⟩
+  · exact sectLoop_fuel_sufficient _ s c2 true (by omega) p c h
+  · simp at h
+
+
+
+/-! ## nothing panics (stream side) -/
+
+theorem rowP_no_panic (w0 w1 w2 obj : Nat) (s : Bytes) (c : Nat) (p : String) (c' : Nat) :
+    rowP w0 w1 w2 obj s c ≠ (.panic p, c') := by
+  intro h
+  unfold rowP at h
+  rcases andThen_eq_panic h with h | ⟨t, c0, ht, h⟩
+  · split at h
+    · simp at h
+    · rcases andThen_eq_panic h with h | ⟨f, cc, _, h⟩
+      · exact parseUsizeW_no_panic _ _ _ _ _ _ h
+      · split at h <;> simp at h
+  have ht2 : t ≤ 2 := by
+    split at ht
+    · simp at ht; omega
+    · obtain ⟨f, cc, _, hg⟩ := andThen_eq_ok ht
+      split at hg
+      · simp at hg
+      · simp at hg; omega
+  rcases andThen_eq_panic h with h | ⟨f2, c1, _, h⟩
+  · exact parseUsizeW_no_panic _ _ _ _ _ _ h
+  rcases andThen_eq_panic h with h | ⟨f3, c2, _, h⟩
+  · split at h
+    · exact parseUsizeW_no_panic _ _ _ _ _ _ h
+    · simp at h
+  have : t = 0 ∨ t = 1 ∨ t = 2 := by omega
+  rcases this with rfl | rfl | rfl <;> simp at h
+
+theorem rowsLoop_no_panic (w0 w1 w2 : Nat) : ∀ (n obj : Nat) (s : Bytes) (c : Nat), obj + n ≤ usizeLim →
+    ∀ p c', rowsLoop w0 w1 w2 n obj s c ≠ (.panic p, c') := by
+  intro n
+  induction n with
+  | zero => intro obj s c _ p c'; simp [rowsLoop]
+  | succ n ih =>
+    intro obj s c hlim p c'
+    have hlt : ¬ obj ≥ usizeLim := by omega
+    simp only [rowsLoop, hlt, if_false]
+    cases hr : rowP w0 w1 w2 obj s c with
+    | mk r c1 =>
+      cases r with
+      | ok e =>
+        simp only
+        cases hl : rowsLoop w0 w1 w2 n (obj + 1) s c1 with
+        | mk r2 c2 =>
+          cases r2 with
+          | ok es => simp
+          | err k => simp
+          | panic q => exact absurd hl (ih (obj + 1) s c1 (by omega) q c2)
+      | err k => simp
+      | panic q => exact absurd hr (rowP_no_panic _ _ _ _ _ _ q c1)
+
+theorem indexLoop_no_panic (w0 w1 w2 : Nat) : ∀ (idx : List (Nat × Nat)) (s : Bytes) (c : Nat),
+    (∀ q ∈ idx, q.1 + q.2 ≤ usizeLim) → ∀ p c', indexLoop w0 w1 w2 idx s c ≠ (.panic p, c') := by
+  intro idx
+  induction idx with
+  | nil => intro s c _ p c'; simp [indexLoop]
+  | cons q t ih =>
+    intro s c hlim p c'
+    obtain ⟨st, cnt⟩ := q
+    simp only [indexLoop]
+    cases hr : rowsLoop w0 w1 w2 cnt st s c with
+    | mk r c1 =>
+      cases r with
+      | ok es =>
+        simp only
+        cases hl : indexLoop w0 w1 w2 t s c1 with
+        | mk r2 c2 =>
+          cases r2 with
+          | ok es' => simp
+          | err k => simp
+          | panic q => exact absurd hl (ih s c1 (fun x hx => hlim x (by simp [hx])) q c2)
+      | err k => simp
+      | panic q => exact absurd hr (rowsLoop_no_panic w0 w1 w2 cnt st s c (hlim (st, cnt) (by simp)) q c1)
+
+/-- C13 (robustness of the stream decoder): with subsection bounds that fit `usize` (they come from
+    `i64` dictionary integers: start, count < 2^63) `parse_stream` never panics - the `unhandled
+    entry type` arm and the debug-build `start_obj + c` are unreachable -/
+theorem parseStream_never_panics (m : DictInfo) (s : Bytes) (i : Nat)
+    (hsize : m.size ≤ usizeLim)
+    (hidx : ∀ l, m.index = some l → ∀ q ∈ l, q.1 + q.2 ≤ usizeLim) (p : String) (c : Nat) :
+    parseStream m s i ≠ (.panic p, c) := by
+  unfold parseStream
+  apply indexLoop_no_panic
+  cases hm : m.index with
+  | none => intro q hq; simp at hq; subst hq; simpa using hsize
+  | some l => exact hidx l hm
+
+
+
+/-! ## the stream decoder equals the slicing spec on every input -/
+
+theorem beVal_lt (l : Bytes) : XrefSpec.beVal l < 256 ^ l.length := by
+  induction l with
+  | nil => simp [XrefSpec.beVal]
+  | cons b t ih =>
+    have hb := b.toNat_lt
+    simp only [XrefSpec.beVal, List.length_cons, Nat.pow_succ]
+    have : b.toNat * 256 ^ t.length ≤ 255 * 256 ^ t.length := Nat.mul_le_mul_right _ (by omega)
+    omega
+
+theorem take_succ_drop {s : Bytes} {c : Nat} {b : UInt8} (h : s[c]? = some b) (w : Nat) :
+    (s.drop c).take (w + 1) = b :: (s.drop (c + 1)).take w := by
+  have hc := getElem?_some_lt h
+  rw [List.drop_eq_getElem_cons hc, List.take_succ_cons]
+  have : s[c] = b := by
+    have := List.getElem?_eq_getElem hc
+    rw [this] at h; exact Option.some.inj h
+  rw [this]
+
+/-- `parse_usize_with_width` reads the big-endian value of the `w` bytes under the cursor -/
+theorem parseUsizeW_window (w : Nat) : ∀ (s : Bytes) (c acc : Nat), c + w ≤ s.length →
+    acc * 256 ^ w + XrefSpec.beVal ((s.drop c).take w) < usizeLim →
+    parseUsizeW w s c acc = (.ok (acc * 256 ^ w + XrefSpec.beVal ((s.drop c).take w)), c + w) := by
+  induction w with
+  | zero => intro s c acc _ _; simp [parseUsizeW, XrefSpec.beVal]
+  | succ w ih =>
+    intro s c acc hlen hlim
+    have hc : c < s.length := by omega
+    have hb : s[c]? = some s[c] := List.getElem?_eq_getElem hc
+    have htl : ((s.drop (c + 1)).take w).length = w := by simp; omega
+    rw [take_succ_drop hb] at hlim ⊢
+    simp only [XrefSpec.beVal, htl] at hlim ⊢
+    have hpow : 256 ^ (w + 1) = 256 * 256 ^ w := by rw [Nat.pow_succ, Nat.mul_comm]
+    have hP : 0 < 256 ^ w := Nat.pow_pos (by omega)
+    have harith : (acc * 256 + s[c].toNat) * 256 ^ w = acc * (256 * 256 ^ w) + s[c].toNat * 256 ^ w := by
+      rw [Nat.add_mul, Nat.mul_assoc]
+    have hlt : acc * 256 + s[c].toNat < usizeLim := by
+      have : acc * 256 + s[c].toNat ≤ (acc * 256 + s[c].toNat) * 256 ^ w := Nat.le_mul_of_pos_right _ hP
+      rw [hpow] at hlim
+      omega
+    simp only [parseUsizeW, hb, Nat.mod_eq_of_lt hlt]
+    rw [ih s (c + 1) _ (by omega) (by rw [harith, ← hpow]; omega)]
+    rw [harith, ← hpow]
+    simp only [Prod.mk.injEq, Res.ok.injEq]
+    omega
+
+theorem parseUsizeW_short (w : Nat) : ∀ (s : Bytes) (c acc : Nat), c ≤ s.length → s.length < c + w →
+    ∃ c', parseUsizeW w s c acc = (.err .eob, c') := by
+  induction w with
+  | zero => intro s c acc h0 h; omega
+  | succ w ih =>
+    intro s c acc h0 h
+    simp only [parseUsizeW]
+    cases hb : s[c]? with
+    | none => exact ⟨c, rfl⟩
+    | some b =>
+      have := getElem?_some_lt hb
+      exact ih s (c + 1) _ (by omega) (by omega)
+
+theorem field_window (w : Nat) (hw : w ≤ 4) (s : Bytes) (c : Nat) (h : c + w ≤ s.length) :
+    parseUsizeW w s c 0 = (.ok (XrefSpec.beVal ((s.drop c).take w)), c + w) := by
+  have hl : ((s.drop c).take w).length = w := by simp; omega
+  have hb := beVal_lt ((s.drop c).take w)
+  rw [hl] at hb
+  have := parseUsizeW_window w s c 0 h (by
+    have := pow256_le w hw
+    have : usizeLim = 18446744073709551616 := by decide
+    omega)
+  simpa using this
+
+theorem window_sub (s : Bytes) (c n a b : Nat) (h : a + b ≤ n) :
+    (((s.drop c).take n).drop a).take b = (s.drop (c + a)).take b := by
+  rw [List.drop_take, List.take_take, List.drop_drop]
+  have : min b (n - a) = b := by omega
+  rw [this]
+
+/-- one row: the sequential reads agree with reading the row by position -/
+theorem rowP_spec (w0 w1 w2 obj : Nat) (h0 : w0 ≤ 4) (h1 : w1 ≤ 4) (h2 : w2 ≤ 4) (s : Bytes) (c : Nat)
+    (hlen : c + (w0 + w1 + w2) ≤ s.length) :
+    match rowMeaning w0 w1 w2 obj ((s.drop c).take (w0 + w1 + w2)) with
+    | some e => rowP w0 w1 w2 obj s c = (.ok ⟨e, c, c + (w0 + w1 + w2)⟩, c + (w0 + w1 + w2))
+    | none => ∃ c', rowP w0 w1 w2 obj s c = (.err .guard, c') := by
+  have e0 : ((s.drop c).take (w0 + w1 + w2)).take w0 = (s.drop c).take w0 := by
+    have := window_sub s c (w0 + w1 + w2) 0 w0 (by omega)
+    simpa using this
+  have e1 : (((s.drop c).take (w0 + w1 + w2)).drop w0).take w1 = (s.drop (c + w0)).take w1 :=
+    window_sub s c (w0 + w1 + w2) w0 w1 (by omega)
+  have e2 : (((s.drop c).take (w0 + w1 + w2)).drop (w0 + w1)).take w2 = (s.drop (c + w0 + w1)).take w2 := by
+    have := window_sub s c (w0 + w1 + w2) (w0 + w1) w2 (by omega)
+    rw [this, Nat.add_assoc]
+  have hf0 := field_window w0 h0 s c (by omega)
+  have hf1 := field_window w1 h1 s (c + w0) (by omega)
+  have hf2 := field_window w2 h2 s (c + w0 + w1) (by omega)
+  have hc : c + w0 + w1 + w2 = c + (w0 + w1 + w2) := by omega
+  unfold rowMeaning rowP
+  rw [e0, e1, e2]
+  generalize XrefSpec.beVal ((s.drop c).take w0) = t0 at *
+  generalize XrefSpec.beVal ((s.drop (c + w0)).take w1) = f2 at *
+  generalize XrefSpec.beVal ((s.drop (c + w0 + w1)).take w2) = f3 at *
+  have hf3 : (if w2 > 0 then parseUsizeW w2 s (c + w0 + w1) 0 else ((.ok 0, c + w0 + w1) : Step Nat))
+      = (.ok f3, c + w0 + w1 + w2) := by
+    by_cases hw2 : w2 = 0
+    · subst hw2; simp [parseUsizeW] at hf2 ⊢; omega
+    · have : w2 > 0 := by omega
+      simp only [this, if_true, hf2]
+  by_cases hw0 : w0 = 0
+  · subst hw0
+    simp only [Nat.add_zero, Nat.zero_add] at *
+    simp [hf1, hf3, hc]
+  · have hne : (w0 == 0) = false := by simp [hw0]
+    simp only [hw0, if_false, hne, Bool.false_eq_true, hf0, andThen_ok]
+    by_cases ht0 : t0 = 0
+    · subst ht0; simp [hf1, hf3, hc]
+    · by_cases ht1 : t0 = 1
+      · subst ht1; simp [hf1, hf3, hc]
+      · by_cases ht2 : t0 = 2
+        · subst ht2; simp [hf1, hf3, hc]
+        · have : t0 > 2 := by omega
+          simp [ht0, ht1, ht2, this]
+
+theorem rowP_short (w0 w1 w2 obj : Nat) (hw1 : 0 < w1) (s : Bytes) (c : Nat)
+    (hlen : s.length < c + (w0 + w1 + w2)) : ∃ k c', rowP w0 w1 w2 obj s c = (.err k, c') := by
+  cases hr : rowP w0 w1 w2 obj s c with
+  | mk r c' =>
+    cases r with
+    | ok e =>
+      have ⟨_, h2, h3⟩ := rowP_ok w0 w1 w2 obj s c e c' hr
+      have := h3 hw1; omega
+    | err k => exact ⟨k, c', rfl⟩
+    | panic p => exact absurd hr (rowP_no_panic _ _ _ _ _ _ p c')
+
+/-- the row loop equals slicing `cnt` rows off the remaining content -/
+theorem rowsLoop_spec (w0 w1 w2 : Nat) (h0 : w0 ≤ 4) (h1 : w1 ≤ 4) (h2 : w2 ≤ 4) (hw1 : 0 < w1) :
+    ∀ (n obj : Nat) (s : Bytes) (c : Nat), obj + n ≤ usizeLim →
+    match sliceRows w0 w1 w2 n obj (s.drop c) with
+    | some (es, r) => ∃ l, rowsLoop w0 w1 w2 n obj s c = (.ok l, c + n * (w0 + w1 + w2))
+        ∧ l.map (·.val) = es ∧ r = s.drop (c + n * (w0 + w1 + w2))
+    | none => ∃ k c', rowsLoop w0 w1 w2 n obj s c = (.err k, c') := by
+  intro n
+  induction n with
+  | zero => intro obj s c _; simp [sliceRows, rowsLoop]
+  | succ n ih =>
+    intro obj s c hlim
+    have hlt : ¬ obj ≥ usizeLim := by omega
+    simp only [sliceRows, rowsLoop, hlt, if_false, List.length_drop]
+    by_cases hlen : s.length - c < w0 + w1 + w2
+    · simp only [hlen, if_true]
+      obtain ⟨k, c', hk⟩ := rowP_short w0 w1 w2 obj hw1 s c (by omega)
+      exact ⟨k, c', by rw [hk]⟩
+    · simp only [hlen, if_false]
+      have hrow := rowP_spec w0 w1 w2 obj h0 h1 h2 s c (by omega)
+      cases hm : rowMeaning w0 w1 w2 obj ((s.drop c).take (w0 + w1 + w2)) with
+      | none =>
+        rw [hm] at hrow
+        obtain ⟨c', hk⟩ := hrow
+        exact ⟨_, c', by rw [hk]⟩
+      | some e =>
+        rw [hm] at hrow
+        simp only at hrow ⊢
+        rw [hrow]
+        have hih := ih (obj + 1) s (c + (w0 + w1 + w2)) (by omega)
+        rw [List.drop_drop]
+        cases hs : sliceRows w0 w1 w2 n (obj + 1) (s.drop (c + (w0 + w1 + w2))) with
+        | none =>
+          rw [hs] at hih
+          obtain ⟨k, c', hk⟩ := hih
+          exact ⟨k, c', by simp only [hk]⟩
+        | some pr =>
+          obtain ⟨es, r⟩ := pr
+          rw [hs] at hih
+          obtain ⟨l, hl, hm2, hr⟩ := hih
+          refine ⟨(⟨e, c, c + (w0 + w1 + w2)⟩ : Located Ent) :: l, ?_, by simp [hm2], ?_⟩
+          · simp only [hl, Prod.mk.injEq, true_and]
+            rw [Nat.succ_mul]; omega
+          · rw [hr]; congr 1; rw [Nat.succ_mul]; omega
+
+theorem indexLoop_spec (w0 w1 w2 : Nat) (h0 : w0 ≤ 4) (h1 : w1 ≤ 4) (h2 : w2 ≤ 4) (hw1 : 0 < w1) :
+    ∀ (idx : List (Nat × Nat)) (s : Bytes) (c : Nat), (∀ q ∈ idx, q.1 + q.2 ≤ usizeLim) → c ≤ s.length →
+    match sliceIndex w0 w1 w2 idx (s.drop c) with
+    | some (es, r) => ∃ l c', indexLoop w0 w1 w2 idx s c = (.ok l, c') ∧ l.map (·.val) = es ∧ r = s.drop c'
+        ∧ c ≤ c' ∧ c' ≤ s.length
+    | none => ∃ k c', indexLoop w0 w1 w2 idx s c = (.err k, c') := by
+  intro idx
+  induction idx with
+  | nil => intro s c _ hc; exact ⟨[], c, rfl, rfl, rfl, Nat.le_refl _, hc⟩
+  | cons q t ih =>
+    intro s c hlim hc
+    obtain ⟨st, cnt⟩ := q
+    simp only [sliceIndex, indexLoop]
+    have hrows := rowsLoop_spec w0 w1 w2 h0 h1 h2 hw1 cnt st s c (hlim (st, cnt) (by simp))
+    cases hs : sliceRows w0 w1 w2 cnt st (s.drop c) with
+    | none =>
+      rw [hs] at hrows
+      obtain ⟨k, c', hk⟩ := hrows
+      exact ⟨k, c', by simp only [hk]⟩
+    | some pr =>
+      obtain ⟨es, r⟩ := pr
+      rw [hs] at hrows
+      obtain ⟨l, hl, hm, hr⟩ := hrows
+      simp only [hl]
+      have hcur : c + cnt * (w0 + w1 + w2) ≤ s.length := by
+        have ⟨_, hin⟩ := rows_terminate w0 w1 w2 hw1 cnt st s c l _ hl
+        by_cases hcnt : 0 < cnt
+        · exact hin hcnt
+        · have : cnt = 0 := by omega
+          subst this; simpa using hc
+      have hih := ih s (c + cnt * (w0 + w1 + w2)) (fun x hx => hlim x (by simp [hx])) hcur
+      rw [← hr] at hih
+      cases hs2 : sliceIndex w0 w1 w2 t r with
+      | none =>
+        rw [hs2] at hih
+        obtain ⟨k, c', hk⟩ := hih
+        exact ⟨k, c', by simp only [hk]⟩
+      | some pr2 =>
+        obtain ⟨es', r'⟩ := pr2
+        rw [hs2] at hih
+        obtain ⟨l', c', hl', hm', hr', hc', hc2⟩ := hih
+        exact ⟨l ++ l', c', by simp only [hl'], by simp [hm, hm'], hr', by omega, hc2⟩
+
+
+theorem dictMeaning_widths (d : Dict) (idx : List (Nat × Nat)) (w0 w1 w2 : Nat)
+    (h : dictMeaning d = some (idx, w0, w1, w2)) : w0 ≤ 4 ∧ w1 ≤ 4 ∧ w2 ≤ 4 ∧ 0 < w1 := by
+  unfold dictMeaning at h
+  split at h
+  · split at h
+    · split at h
+      · rename_i hwm _
+        simp only [Option.some.injEq, Prod.mk.injEq] at h
+        obtain ⟨_, rfl, rfl, rfl⟩ := h
+        unfold widthsMeaning at hwm
+        split at hwm
+        · split at hwm
+          · rename_i hc
+            simp only [Option.some.injEq, Prod.mk.injEq] at hwm
+            obtain ⟨rfl, rfl, rfl⟩ := hwm
+            omega
+          · cases hwm
+        · cases hwm
+      · cases h
+    · cases h
+  · cases h
+
+/-- C13 (stream half, every input): for a dictionary without filters, not encrypted, whose
+    subsection bounds fit `usize` (they are `i64` integers), `XrefStreamP` accepts exactly when the
+    declarative reading accepts - well-formed dictionary, content long enough for all announced
+    rows, every type field at most 2 - and then returns exactly the entries obtained by slicing the
+    content into rows and fields, numbered from each subsection's start, with the cursor right
+    after the last row.  Truncated rows, a type above 2 and every dictionary malformation are
+    rejected. -/
+theorem xrefstream_spec (d : Dict) (xf : Filter → Bytes → Res Bytes) (s : Bytes) (i : Nat)
+    (hi : i ≤ s.length) (hfil : streamFilters d = some [])
+    (hrange : ∀ idx w0 w1 w2, dictMeaning d = some (idx, w0, w1, w2) → ∀ q ∈ idx, q.1 + q.2 ≤ usizeLim) :
+    match streamMeaning d (s.drop i) with
+    | some (es, used) => ∃ l, xrefStreamP false d xf s i = (.ok l, i + used) ∧ l.map (·.val) = es
+    | none => ∃ k c, xrefStreamP false d xf s i = (.err k, c) := by
+  unfold streamMeaning xrefStreamP
+  rcases dictinfo_char d with ⟨herr, hnone | hnone⟩ | ⟨m, hm, hdm, hfs⟩
+  · rw [herr, hnone]; exact ⟨_, _, rfl⟩
+  · rw [hfil] at hnone; cases hnone
+  · obtain ⟨idx, hI, hps⟩ : ∃ idx, infoMeaning m = (idx, m.w0, m.w1, m.w2)
+        ∧ parseStream m s i = indexLoop m.w0 m.w1 m.w2 idx s i := by
+      cases hmi : m.index with
+      | none => exact ⟨[(0, m.size)], by simp [infoMeaning, hmi], by simp [parseStream, hmi]⟩
+      | some l => exact ⟨l, by simp [infoMeaning, hmi], by simp [parseStream, hmi]⟩
+    rw [hI] at hdm
+    rw [hm, hdm]
+    rw [hfil] at hfs
+    have hfs' : m.filters = [] := (Option.some.inj hfs).symm
+    obtain ⟨h0, h1, h2, hw1⟩ := dictMeaning_widths d _ _ _ _ hdm
+    have hlim := hrange _ _ _ _ hdm
+    simp only [Bool.false_eq_true, if_false, hfs', applyFilters, hps]
+    have hspec := indexLoop_spec m.w0 m.w1 m.w2 h0 h1 h2 hw1 idx s i hlim hi
+    cases hsl : sliceIndex m.w0 m.w1 m.w2 idx (s.drop i) with
+    | none =>
+      rw [hsl] at hspec
+      exact hspec
+    | some pr =>
+      obtain ⟨es, r⟩ := pr
+      rw [hsl] at hspec
+      obtain ⟨l, c', hl, hmap, hr, hc1, hc2⟩ := hspec
+      refine ⟨l, ?_, hmap⟩
+      rw [hl, hr]
+      simp only [List.length_drop, Prod.mk.injEq, true_and]
+      omega
+
+
+
+theorem encHdr_unlead (t : TSub) (cnt : Nat) : encHdr t cnt = t.lead ++ encHdr (unlead t) cnt := by
+  simp [encHdr, unlead]
+
+theorem hdrOk_unlead (t : TSub) (cnt : Nat) (h : hdrOk t cnt) : hdrOk (unlead t) cnt := by
+  obtain ⟨a, b, c, d, e, f, _, g⟩ := h
+  exact ⟨a, b, c, d, e, f, rfl, g⟩
+
+/-- the same in the FIRST subsection (the shipped code already rejected this) -/
+theorem table_malformed_first_subsection_rejected (t : TSub) (cnt : Nat) (hh : hdrOk t cnt)
+    (es : List TEnt) (bad : Bytes) (hwf : ∀ e ∈ es, e.wf) (hcnt : es.length < cnt)
+    (hr : ∀ b, (es.flatMap encEntry ++ bad).head? = some b → Xref.isWsEol b = false ∧ b ≠ 37)
+    (hbad : entryAt bad 0 = none) :
+    ∃ k c, xrefSectP (encTable [] ++ (encHdr t cnt ++ (es.flatMap encEntry ++ bad))) 0 = (.err k, c) := by
+  obtain ⟨hws, hlead⟩ : 0 < t.wStart ∧ t.lead.all XrefSpec.isBlank = true := ⟨hh.2.2.1, hh.2.2.2.2.2.2.1⟩
+  obtain ⟨d0, t0, hd0, hdig0⟩ := padDec_head t.wStart t.start hws
+  have hbody : encHdr (unlead t) cnt ++ (es.flatMap encEntry ++ bad)
+      = d0 :: (t0 ++ ([32] ++ padDec t.wCount cnt ++ t.hdrEol) ++ (es.flatMap encEntry ++ bad)) := by
+    simp [encHdr, unlead, hd0]
+  have hS : encTable [] ++ (encHdr t cnt ++ (es.flatMap encEntry ++ bad))
+      = kwXref ++ ([10] ++ t.lead ++ (encHdr (unlead t) cnt ++ (es.flatMap encEntry ++ bad))) := by
+    simp [encTable, encHdr_unlead t cnt]
+  obtain ⟨hP, hd5⟩ := xrefSectP_start t.lead (encHdr (unlead t) cnt ++ (es.flatMap encEntry ++ bad)) hlead
+    ⟨d0, _, hbody, hdig0⟩
+  rw [hS]
+  generalize kwXref ++ ([10] ++ t.lead ++ (encHdr (unlead t) cnt ++ (es.flatMap encEntry ++ bad))) = S at *
+  have hsub := subsect_malformed_rejected (unlead t) cnt (hdrOk_unlead t cnt hh) es bad hwf hcnt S _ hd5 hr (by
+    have h1 := drop_step hd5
+    have h2 := drop_step h1
+    rw [encEntries_length] at h2
+    unfold entryAt at hbad ⊢
+    rw [h2]; simpa using hbad)
+  obtain ⟨k, c', hk⟩ := sect_error [] (S.length - (4 + (1 + t.lead.length)) + 2) S
+    (4 + (1 + t.lead.length)) _ true (by simp) (by simp) (by simpa using hd5)
+    ⟨[], d0, _, hbody, rfl, hdig0⟩ (by simpa using hsub)
+  exact ⟨k, c', by rw [hP, hk]; rfl⟩
+
+/-- C13: a malformed entry is rejected wherever it sits - after any number (zero or more) of
+    well-formed subsections -/
+theorem table_malformed_rejected (subs : List TSub) (hok : ∀ t ∈ subs, subOk t)
+    (t : TSub) (cnt : Nat) (hh : hdrOk t cnt) (es : List TEnt) (bad : Bytes)
+    (hwf : ∀ e ∈ es, e.wf) (hcnt : es.length < cnt)
+    (hr : ∀ b, (es.flatMap encEntry ++ bad).head? = some b → Xref.isWsEol b = false ∧ b ≠ 37)
+    (hbad : entryAt bad 0 = none) :
+    ∃ k c, xrefSectP (encTable subs ++ (encHdr t cnt ++ (es.flatMap encEntry ++ bad))) 0 = (.err k, c) := by
+  cases subs with
+  | nil => exact table_malformed_first_subsection_rejected t cnt hh es bad hwf hcnt hr hbad
+  | cons a b =>
+    exact table_malformed_later_subsection_rejected (a :: b) (by simp) hok t cnt hh es bad hwf hcnt hr hbad
+
 /-! ## defect #32: witness on the code as shipped, and the fixed code on the same input -/
 
 
